@@ -382,6 +382,20 @@ func runRoute(t *testing.T, c spec.Case, e Em) {
 				}
 			}(g)
 		}
+		if p.DispG > 0 && pr.rpcClient != nil {
+			// alongside: dispenses of a plugin whose Server() fails after a while (their error is expected)
+			var stopBad atomic.Bool
+			defer stopBad.Store(true)
+			wg.Add(1)
+			go func() {
+				defer wg.Done()
+				for k := 0; k < 12 && !stopBad.Load(); k++ {
+					if _, err := pr.rpcClient.Dispense("bad"); err == nil {
+						e.Obs("dispense", spec.DispObs{G: -1, Want: "bad", Err: "Dispense of a plugin whose Server() fails returned no error"})
+					}
+				}
+			}()
+		}
 		if p.Sequential {
 			for i, it := range p.Items {
 				item(i, it)
